@@ -1,10 +1,12 @@
 import Nervus.Driver.Util
 import Nervus.Driver.OKey
+import Nervus.Driver.ExtId
 open Nervus.Driver
 
 /-- stream registry: one line per stream (kept one-per-line so that merges are unions) -/
 def streams : List (String × Stream) := [
-  ("okey", OKeyStream.stream)
+  ("okey", OKeyStream.stream),
+  ("extid", ExtIdStream.stream)
 ]
 
 def main (args : List String) : IO UInt32 := do
